@@ -2205,8 +2205,8 @@ func (ff *FuncFacts) assign(x *ast.AssignStmt, st *State) *State {
 		// about "the value returned here" survive reassignment of the variable
 		if (lt.K == 'v' || lt.K == 'f' || lt.K == 'i') && ff.pureTerm(rt) {
 			st = st.add(mkFact(true, "eq", lt, rt))
-			if isFresh(rt) {
-				st = st.add(mkFact(false, "eq", lt, TNil()))
+			if isFresh(rt) || (rt.K == 'o' && rt.Name == "&" && len(rt.Args) == 1) {
+				st = st.add(mkFact(false, "eq", lt, TNil())) // a new object, or the address of something
 			}
 			if isOrdered(info.TypeOf(x.Lhs[i])) {
 				// x = y: neither x < y nor y < x (survives a join with the
